@@ -89,6 +89,11 @@ func Explore(prog *ssa.Program, fn *ssa.Function, cfg *Config, opt Options) (*Re
 	faultSeen := map[string]bool{}
 	violSeen := map[string]int{}
 
+	var dumpF *os.File
+	if f := os.Getenv("SYMGO_DUMP"); f != "" { // debugging aid: one line per completed path
+		dumpF, _ = os.Create(f)
+		defer dumpF.Close()
+	}
 	workers := make([]*interpreter, opt.Workers)
 	for w := range workers {
 		in, err := newInterpreter(prog, cfg)
@@ -122,6 +127,9 @@ func Explore(prog *ssa.Program, fn *ssa.Function, cfg *Config, opt Options) (*Re
 				res := in.RunPath(fn, item, wantW)
 
 				mu.Lock()
+				if dumpF != nil {
+					fmt.Fprintf(dumpF, "%v %s\n", res.Decisions, res.Status)
+				}
 				active--
 				rep.Paths++
 				rep.ByStatus[res.Status]++
